@@ -430,6 +430,9 @@ def run(P, R, tier):
     # a final answer the handler does not recognise leaves the hold in place for good
     c02.answers_settle(P, R, 'C03.MPT.4')
     service_names_caseless(P, R)
+    # a reference given back twice frees a retired service's slot under a client that still waits for its reply: the reply
+    # then matches no slot and the wait never ends
+    holds.refs_discipline(P, R, 'C03.WMC.4')
     # a reply whose serial is compared in a narrower type is dropped once the counter outgrows it
     c04.validated_return(P, Remap(R, {'C04.GRD.1': 'C03.GRD.4'}, keys=('width:',)), r, sepch, idv, serv)
     # a retired service slot stays while a client still waits for its reply (the reply is what ends the wait)
